@@ -135,6 +135,7 @@ class Ctx:
         self.cases_run: Dict[str, int] = {}
         self.info: Dict[str, Any] = {}
         self._sample_kinds: Dict[str, int] = {}
+        self.classify: Optional[Callable] = None
 
     # -- recording ---------------------------------------------------------
     def ev(self, monitor: str, ok: Any, cls: Optional[str] = None,
@@ -152,18 +153,37 @@ class Ctx:
 
     def violation(self, monitor: str, cls: Optional[str], detail: Any) -> None:
         key = "%s/%s" % (monitor, cls) if cls else monitor
+        w = None
+        if self.classify is not None:
+            # every violation is classified when it is recorded, so that a
+            # listed known finding can never absorb a different failure that
+            # happens to share its monitor / class
+            w = self._witness(monitor, cls, key, detail)
+            try:
+                fid = self.classify(w)
+            except Exception as e:  # pragma: no cover
+                fid = None
+                self.harness_errors.append("classify: %r" % (e, ))
+            if fid:
+                key = "%s|%s" % (key, fid)
+                w["key"] = key
+                w["finding"] = fid
         self.viol_count[key] = self.viol_count.get(key, 0) + 1
         lst = self.witnesses.setdefault(key, [])
         if len(lst) < self.MAX_WITNESS_PER_CLASS:
-            if callable(detail):
-                try:
-                    detail = detail()
-                except Exception as e:  # pragma: no cover
-                    detail = {"detail_error": repr(e)}
-            lst.append({"property": self.pid, "monitor": monitor, "cls": cls,
-                        "key": key, "gen": self.gen, "case": self.case,
-                        "seed": self.seed, "tier": self.tier,
-                        "detail": jsonable(detail)})
+            lst.append(w if w is not None
+                       else self._witness(monitor, cls, key, detail))
+
+    def _witness(self, monitor, cls, key, detail) -> dict:
+        if callable(detail):
+            try:
+                detail = detail()
+            except Exception as e:  # pragma: no cover
+                detail = {"detail_error": repr(e)}
+        return {"property": self.pid, "monitor": monitor, "cls": cls,
+                "key": key, "gen": self.gen, "case": self.case,
+                "seed": self.seed, "tier": self.tier,
+                "detail": jsonable(detail)}
 
     def sig(self, *sig: Any) -> None:
         """Register the structural signature of a non-trivial case."""
@@ -279,24 +299,15 @@ def finish(mod, ctx: Ctx, t0: float, nworkers: int, dead_workers: List[str]
     """Decide the verdict, write evidence + replays, print the lines."""
     pid = mod.ID
     findings = load_findings(pid)
-    classify = getattr(mod, "classify", lambda w: None)
     known_seen: Dict[str, int] = {}
     new_viol: Dict[str, dict] = {}
     for key, wl in ctx.witnesses.items():
-        for w in wl[:1] if wl else []:
-            pass
-        # a class is "known" only if EVERY kept witness of it classifies to a
-        # finding whose status is "known"
-        fids = [classify(w) for w in wl]
-        if fids and all(f is not None and f in findings and
-                        findings[f].get("status") == "known" for f in fids):
-            for f in set(fids):
-                known_seen[f] = known_seen.get(f, 0) + ctx.viol_count[key]
+        fid = key.split("|", 1)[1] if "|" in key else None
+        if fid is not None and fid in findings and \
+                findings[fid].get("status") == "known":
+            known_seen[fid] = known_seen.get(fid, 0) + ctx.viol_count[key]
         else:
-            bad = next((w for w, f in zip(wl, fids)
-                        if not (f in findings and
-                                findings[f].get("status") == "known")), wl[0])
-            new_viol[key] = bad
+            new_viol[key] = wl[0]
 
     os.makedirs(os.path.join(VERIF, "replays"), exist_ok=True)
     lines = []
@@ -384,3 +395,9 @@ def workdir() -> str:
 def cleanup_workdir() -> None:
     shutil.rmtree(os.path.join(WORK_ROOT, str(os.getpid())),
                   ignore_errors=True)
+
+
+def new_ctx(mod, tier: str, seed: int) -> Ctx:
+    ctx = Ctx(mod.ID, tier, seed)
+    ctx.classify = getattr(mod, "classify", None)
+    return ctx
